@@ -34,7 +34,7 @@ struct World {
     owns: HashMap<i64, OwnH>,
     refs: HashMap<i64, Actor<Node>>,
     rets: HashMap<i64, RetH>,
-    fwds: HashMap<i64, Fwd<i64>>,
+    fwds: HashMap<i64, FwdH>,
     deferrer: Option<Deferrer>,
     during: String,
     // slabs built during Prep, handed to the value when the actor becomes Ready
@@ -321,7 +321,17 @@ struct VTok {
 }
 impl Drop for VTok {
     fn drop(&mut self) {
-        ev(format!(r#"{{"e":"vdrop","aid":{}}}"#, self.aid));
+        // what is_zombie() says while the value is being dropped (true when termination drops it;
+        // the std and packed cells must agree)
+        let aid = self.aid;
+        let z = W
+            .try_with(|w| w.try_borrow().ok().and_then(|w| w.refs.get(&aid).map(|a| a.is_zombie())))
+            .ok()
+            .flatten();
+        match z {
+            Some(z) => ev(format!(r#"{{"e":"vdrop","aid":{},"zombie":{}}}"#, self.aid, z)),
+            None => ev(format!(r#"{{"e":"vdrop","aid":{}}}"#, self.aid)),
+        }
     }
 }
 
@@ -342,11 +352,23 @@ impl Drop for VDefer {
     }
 }
 
+// The slab of child owners kept in the value: its drop is an event of its own
+// (it comes after what the value's Drop handler defers)
+struct SlabH {
+    aid: i64,
+    slab: ActorOwnSlab<Node>,
+}
+impl Drop for SlabH {
+    fn drop(&mut self) {
+        ev(format!(r#"{{"e":"slabdrop","aid":{}}}"#, self.aid));
+    }
+}
+
 struct Node {
     // Field order matters: kept handles are dropped after `vtok`
     vtok: VTok,
     vdefer: VDefer,
-    slab: ActorOwnSlab<Node>,
+    slab: SlabH,
     aid: i64,
     running: bool,
     kept_owns: Vec<OwnH>,
@@ -362,7 +384,7 @@ impl Node {
             running: false,
             kept_owns: Vec::new(),
             kept_rets: Vec::new(),
-            slab: w(|w| w.pslabs.remove(&aid)).unwrap_or_default(),
+            slab: SlabH { aid, slab: w(|w| w.pslabs.remove(&aid)).unwrap_or_default() },
         }
     }
 
@@ -417,6 +439,11 @@ impl Node {
         drop(tok);
     }
 
+    // call!([cx], |this, cx| ...): the closure form needs `Self`
+    fn call_self_closure(&mut self, cx: CX![], tok: Tok) {
+        call!([cx], |this, cx| this.meth(cx, tok));
+    }
+
     // Target of ret_to!
     fn retm(&mut self, cx: CX![], rid: i64, v: Option<i64>) {
         ev(format!(
@@ -452,6 +479,54 @@ impl Node {
     }
 }
 
+include!("../inc/argcalls.rs");
+
+type Msg6 = (i64, i64, i64, i64, i64, i64);
+#[derive(Clone)]
+enum FwdH {
+    One(Fwd<i64>),
+    Six(Fwd<Msg6>),
+}
+
+// A structured error with a source: what fail()/kill() must deliver intact
+#[derive(Debug)]
+struct HErr {
+    code: String,
+    magic: u64,
+    src: std::fmt::Error,
+}
+impl std::fmt::Display for HErr {
+    fn fmt(&self, f: &mut std::fmt::Formatter<'_>) -> std::fmt::Result {
+        write!(f, "{}", self.code)
+    }
+}
+impl std::error::Error for HErr {
+    fn source(&self) -> Option<&(dyn std::error::Error + 'static)> {
+        Some(&self.src)
+    }
+}
+fn herr(code: &str) -> Box<HErr> {
+    Box::new(HErr { code: code.to_string(), magic: 0x5eed_0000 + code.len() as u64, src: std::fmt::Error })
+}
+// codes ending in an even byte travel as structured errors, the others as strings
+fn structured(code: &str) -> bool {
+    code.bytes().last().map(|b| b % 2 == 0).unwrap_or(false)
+}
+fn payload_intact(c: &Option<StopCause>) -> bool {
+    let e = match c {
+        Some(StopCause::Failed(e)) | Some(StopCause::Killed(e)) => e,
+        _ => return true,
+    };
+    let code = e.to_string();
+    if !structured(&code) {
+        return true;
+    }
+    match e.downcast_ref::<HErr>() {
+        Some(h) => h.magic == 0x5eed_0000 + code.len() as u64 && std::error::Error::source(h).is_some(),
+        None => false,
+    }
+}
+
 fn cause_str(c: &Option<StopCause>) -> String {
     match c {
         None => "none".into(),
@@ -470,10 +545,11 @@ fn mk_notify(aid: i64) -> Ret<StopCause> {
             .ok()
             .flatten();
         ev(format!(
-            r#"{{"e":"notify","aid":{},"cause":"{}","zombie":{}}}"#,
+            r#"{{"e":"notify","aid":{},"cause":"{}","zombie":{},"intact":{}}}"#,
             aid,
             cause_str(&c),
-            z.unwrap_or(true)
+            z.unwrap_or(true),
+            payload_intact(&c)
         ));
     })
 }
@@ -594,10 +670,18 @@ fn exec_op(op: &Value, ctx: &mut Ctx) {
                 }));
             } else {
                 let core = ctx.core().unwrap();
-                shaped!(shape, seed, |pad| core.defer(move |s| {
-                    pad.check(id);
-                    run_item(s, tok)
-                }));
+                if id % 2 == 1 {
+                    // the `[core], |stakker| ...` form of call!
+                    shaped!(shape, seed, |pad| call!([core], |s| {
+                        pad.check(id);
+                        run_item(s, tok)
+                    }));
+                } else {
+                    shaped!(shape, seed, |pad| core.defer(move |s| {
+                        pad.check(id);
+                        run_item(s, tok)
+                    }));
+                }
             }
         }
         "lazy" => {
@@ -608,17 +692,28 @@ fn exec_op(op: &Value, ctx: &mut Ctx) {
             let tok = Tok::new(item);
             submit_ev("lazy", item, String::new());
             let core = ctx.core().expect("lazy needs core");
-            shaped!(shape, seed, |pad| core.lazy(move |s| {
-                pad.check(id);
-                run_item(s, tok)
-            }));
+            if id % 2 == 1 {
+                shaped!(shape, seed, |pad| lazy!([core], |s| {
+                    pad.check(id);
+                    run_item(s, tok)
+                }));
+            } else {
+                shaped!(shape, seed, |pad| core.lazy(move |s| {
+                    pad.check(id);
+                    run_item(s, tok)
+                }));
+            }
         }
         "idle" => {
             let item = &op["item"];
             let tok = Tok::new(item);
             submit_ev("idle", item, String::new());
             let core = ctx.core().expect("idle needs core");
-            core.idle(move |s| run_item(s, tok));
+            if get_i(item, "id") % 2 == 1 {
+                idle!([core], |s| run_item(s, tok));
+            } else {
+                core.idle(move |s| run_item(s, tok));
+            }
         }
         // ------------------------------------------------ timers
         "tadd" | "after" | "tmac" => {
@@ -661,8 +756,15 @@ fn exec_op(op: &Value, ctx: &mut Ctx) {
                     "max" => TKey::Max(core.timer_max_add(at, move |s| run_item(s, tok))),
                     "min" => TKey::Min(core.timer_min_add(at, move |s| run_item(s, tok))),
                     _ => {
+                        // odd items go through the after!/at! macros (closure form)
                         if name == "after" {
-                            TKey::Fixed(core.after(dur(&op["d"]), move |s| run_item(s, tok)))
+                            if iid % 2 == 1 {
+                                TKey::Fixed(after!(dur(&op["d"]), [core], |s| run_item(s, tok)))
+                            } else {
+                                TKey::Fixed(core.after(dur(&op["d"]), move |s| run_item(s, tok)))
+                            }
+                        } else if iid % 2 == 1 {
+                            TKey::Fixed(at!(at, [core], |s| run_item(s, tok)))
                         } else {
                             TKey::Fixed(core.timer_add(at, move |s| run_item(s, tok)))
                         }
@@ -819,7 +921,7 @@ fn exec_op(op: &Value, ctx: &mut Ctx) {
             if in_slab {
                 if let Ctx::M(node, cx) = ctx {
                     let parent = cx.this().clone();
-                    actor = node.slab.add(cx, parent, |this| &mut this.slab, notify);
+                    actor = node.slab.slab.add(cx, parent, |this| &mut this.slab.slab, notify);
                     w(|w| w.refs.insert(aid, actor.clone()));
                     ev(format!(
                         r#"{{"e":"acreate","aid":{},"oid":0,"parent":{},"slab":true,"logid":{}}}"#,
@@ -830,7 +932,7 @@ fn exec_op(op: &Value, ctx: &mut Ctx) {
                     let paid = *paid;
                     let parent = cx.this().clone();
                     let mut slab = w(|w| w.pslabs.remove(&paid)).unwrap_or_default();
-                    actor = slab.add(cx, parent, |this| &mut this.slab, notify);
+                    actor = slab.add(cx, parent, |this| &mut this.slab.slab, notify);
                     w(|w| w.pslabs.insert(paid, slab));
                     w(|w| w.refs.insert(aid, actor.clone()));
                     ev(format!(
@@ -911,6 +1013,27 @@ fn exec_op(op: &Value, ctx: &mut Ctx) {
             };
             let tok = Tok::new(item);
             submit_ev("main", item, format!(r#","aid":{},"prep":{}"#, aid, prep));
+            // calls of an actor to itself also go through the `[cx]` forms of call!
+            let id = get_i(item, "id");
+            let tok = match (&mut *ctx, prep) {
+                (Ctx::M(n, cx), false) if n.aid == aid && id % 3 == 1 => {
+                    call!([cx], meth(tok));
+                    return;
+                }
+                (Ctx::M(n, cx), false) if n.aid == aid && id % 3 == 2 => {
+                    n.call_self_closure(cx, tok);
+                    return;
+                }
+                (Ctx::P(a, cx), true) if *a == aid && id % 2 == 1 => {
+                    call!([cx], Node::init(aid, tok));
+                    return;
+                }
+                (Ctx::P(a, cx), true) if *a == aid && id % 4 == 2 => {
+                    call!([cx], <Node>::init(aid, tok));
+                    return;
+                }
+                _ => tok,
+            };
             match (ctx.core(), prep) {
                 (None, false) => {
                     // From a drop handler: no core
@@ -919,7 +1042,7 @@ fn exec_op(op: &Value, ctx: &mut Ctx) {
                 (None, true) => {
                     call!([actor], Node::init(aid, tok));
                 }
-                (Some(core), false) => call!([actor, core], meth(tok)),
+                (Some(core), false) => call_args(&actor, core, tok, (id % 17) as usize, (id as u32).wrapping_mul(100)),
                 (Some(core), true) => call!([actor, core], Node::init(aid, tok)),
             }
         }
@@ -986,6 +1109,27 @@ fn exec_op(op: &Value, ctx: &mut Ctx) {
                 panic!("harness: vdefer outside Ready method");
             }
         }
+        "chain" => {
+            // a chain of n closures each submitting the next one when it runs (deeper than any
+            // JSON nesting limit): {"op":"chain","n":N,"id0":I,"via":"core|deferrer|mix","q":"defer|lazy|mix"}
+            let n = get_i(op, "n");
+            if n <= 0 {
+                return;
+            }
+            let id0 = get_i(op, "id0");
+            let via = op.get("via").and_then(|v| v.as_str()).unwrap_or("core");
+            let q = op.get("q").and_then(|v| v.as_str()).unwrap_or("defer");
+            let next = serde_json::json!({"op": "chain", "n": n - 1, "id0": id0 + 1, "via": via, "q": q});
+            let item = serde_json::json!({"id": id0, "shape": id0 % 35, "ops": if n > 1 { vec![next] } else { vec![] }});
+            let lazy = q == "lazy" || (q == "mix" && id0 % 7 == 3);
+            let v = if via == "mix" { if id0 % 3 == 0 { "deferrer" } else { "core" } } else { via };
+            let sub = if lazy {
+                serde_json::json!({"op": "lazy", "item": item})
+            } else {
+                serde_json::json!({"op": "defer", "via": v, "item": item})
+            };
+            exec_op(&sub, ctx);
+        }
         "park" => {
             let oid = get_i(op, "oid");
             let own = w(|w| w.owns.remove(&oid)).and_then(|mut h| h.own.take());
@@ -1016,11 +1160,23 @@ fn exec_op(op: &Value, ctx: &mut Ctx) {
             match ctx {
                 Ctx::M(n, cx) => {
                     ev(format!(r#"{{"e":"fail","aid":{},"code":"{}"}}"#, n.aid, code));
-                    cx.fail_string(code);
+                    if structured(&code) {
+                        cx.fail(*herr(&code));
+                    } else if code.len() % 2 == 0 {
+                        cx.fail_str(Box::leak(code.into_boxed_str()));
+                    } else {
+                        cx.fail_string(code);
+                    }
                 }
                 Ctx::P(a, cx) => {
                     ev(format!(r#"{{"e":"fail","aid":{},"code":"{}"}}"#, a, code));
-                    cx.fail_string(code);
+                    if structured(&code) {
+                        cx.fail(*herr(&code));
+                    } else if code.len() % 2 == 0 {
+                        cx.fail_str(Box::leak(code.into_boxed_str()));
+                    } else {
+                        cx.fail_string(code);
+                    }
                 }
                 _ => panic!("harness: fail outside actor"),
             }
@@ -1033,7 +1189,13 @@ fn exec_op(op: &Value, ctx: &mut Ctx) {
                 let own = w(|w| w.owns.remove(&oid));
                 if let Some(h) = own {
                     ev(format!(r#"{{"e":"kill","aid":{},"code":"{}"}}"#, h.aid, code));
-                    h.own.as_ref().unwrap().kill_string(s, code);
+                    if structured(&code) {
+                        h.own.as_ref().unwrap().kill(s, herr(&code));
+                    } else if code.len() % 2 == 0 {
+                        h.own.as_ref().unwrap().kill_str(s, Box::leak(code.into_boxed_str()));
+                    } else {
+                        h.own.as_ref().unwrap().kill_string(s, code);
+                    }
                     ev(format!(r#"{{"e":"kille","aid":{}}}"#, h.aid));
                     w(|w| w.owns.insert(oid, h));
                 } else {
@@ -1147,7 +1309,7 @@ fn exec_op(op: &Value, ctx: &mut Ctx) {
         "slablen" => {
             let aid = get_i(op, "aid");
             if let (Ctx::S(s), Some(a)) = (&mut *ctx, get_actor(aid)) {
-                let r = a.query(s, |n, _| n.slab.len());
+                let r = a.query(s, |n, _| n.slab.slab.len());
                 ev(format!(
                     r#"{{"e":"slablen","aid":{},"ready":{},"len":{}}}"#,
                     aid,
@@ -1231,7 +1393,12 @@ fn exec_op(op: &Value, ctx: &mut Ctx) {
                     return;
                 }
             };
-            let f = fwd_to!([a], fwdm(fid) as (i64));
+            // every third Fwd has five fixed arguments and a six-value message
+            let f = if fid % 3 == 2 {
+                FwdH::Six(fwd_to!([a], fwdm6(fid, fid + 1, fid + 2, fid + 3, fid + 4, fid + 5) as (i64, i64, i64, i64, i64, i64)))
+            } else {
+                FwdH::One(fwd_to!([a], fwdm(fid) as (i64)))
+            };
             ev(format!(r#"{{"e":"mkfwd","fid":{},"aid":{}}}"#, fid, aid));
             w(|w| w.fwds.insert(fid, f));
         }
@@ -1241,7 +1408,10 @@ fn exec_op(op: &Value, ctx: &mut Ctx) {
             let f = w(|w| w.fwds.get(&fid).cloned());
             if let Some(f) = f {
                 ev(format!(r#"{{"e":"fwd","fid":{},"val":{}}}"#, fid, val));
-                fwd!([f], val);
+                match f {
+                    FwdH::One(f) => fwd!([f], val),
+                    FwdH::Six(f) => fwd!([f], val, val + 1, val + 2, val + 3, val + 4, val + 5),
+                }
             }
         }
         "fwddrop" => {
